@@ -179,6 +179,25 @@ def run_levels12(case, ctx):
     g2 = float(ctx.lib("get_volume[accuracy=2]", get_volume, tree, accuracy=2))
     ctx.check(abs(g1 - v1) <= 1e-5 * v1 + 1e-12, "level1/sum-of-node-spheres", lambda: f"got {g1!r}, expected {v1!r}")
     ctx.check(abs(g2 - v2) <= 1e-5 * v2 + 1e-12, "level2/spheres-plus-frusta", lambda: f"got {g2!r}, expected {v2!r}")
+    # the feature front end: one extractor asked for both levels, in either order, singly and in one list request
+    if len(R) % 2 == 0:
+        from swcgeom.analysis import extract_feature
+
+        ctx.cls("one-extractor-asked-for-several-levels")
+        fe = ctx.lib("extract_feature", extract_feature, tree)
+        first, second = (1, 2) if len(R) % 4 == 0 else (2, 1)
+        vals = {}
+        for lv in (first, second, first):
+            vals[lv] = float(np.asarray(ctx.lib(f"extract_feature.get[volume, accuracy={lv}]", fe.get, "volume", accuracy=lv)).reshape(-1)[0])
+            want_lv = v1 if lv == 1 else v2
+            ctx.check(abs(vals[lv] - want_lv) <= 1e-5 * want_lv + 1e-12, f"front-end/level{lv}-asked-after-another-level",
+                      lambda: f"level {lv}: got {vals[lv]!r}, expected {want_lv!r} (request order {first}, {second}, {first})")
+        pair = ctx.lib("extract_feature.get[list of pairs]", fe.get, [("volume", {"accuracy": first}), ("volume", {"accuracy": second})])
+        for lv, g in zip((first, second), pair):
+            g = float(np.asarray(g).reshape(-1)[0])
+            want_lv = v1 if lv == 1 else v2
+            ctx.check(abs(g - want_lv) <= 1e-5 * want_lv + 1e-12, "front-end/each-entry-of-a-list-request-uses-its-own-level",
+                      lambda: f"level {lv}: got {g!r}, expected {want_lv!r}")
     # the volume is a function of the tree as it is now: after a radius has been edited (in place through a node
     # handle, on a copy, or by RadiusReseter) the same call reports the new sums
     if "edit" in case:
@@ -218,5 +237,6 @@ SUBCHECKS = [
                   "level:3": 30, "level:9": 10, "via-extract_feature": 20, "unit:0.001": 40, "unit:100.0": 40}),
     Sub("levels12", levels12_strategy, run_levels12, quick=800, thorough=10000, shards_quick=2,
         required={"furcations>=2": 100, "single-node": 5, "zero-radius-node-with-children": 40,
-                  "volume-asked-again-after-an-in-place-edit": 100, "volume-asked-again-on-a-derived-tree": 100}),
+                  "volume-asked-again-after-an-in-place-edit": 100, "volume-asked-again-on-a-derived-tree": 100,
+                  "one-extractor-asked-for-several-levels": 200}),
 ]
